@@ -117,7 +117,12 @@ def finish(rep, level="model_checking"):
     """write evidence, print verdict lines, return exit code"""
     known = [k for k in load_known() if k["property"] == rep.prop and k.get("status") == "known"]
     new, listed = [], []
+    confirmed_keys = {v.get("key") for v in rep.violations if v.get("reproduced") is True}
     for v in rep.violations:
+        if v.get("reproduced") == "skipped":
+            if v.get("key") in confirmed_keys:
+                continue                      # same failure already confirmed by replay in this run
+            v = dict(v, reproduced=False)
         if not v.get("reproduced"):
             rep.inconclusive.append({"error": "counterexample did not reproduce on the real code (model/encoding problem)", "violation": v})
             continue
